@@ -643,9 +643,9 @@ impl Prop for C08 {
         let mut v = vec![Space { name: "pairs4", size: n4 * n4, exhaustive: true, chunk: 8192, case_timeout_s: 5.0, what: "all ordered pairs of layouts with <= 4 nodes (leaves M1,E1,E2,D1,D3; calls of arity 0-3)" }];
         match tier {
             Tier::Quick => {
-                v.push(Space { name: "edit", size: 30_000, exhaustive: false, chunk: 2000, case_timeout_s: 5.0, what: "random layouts (<= 40 nodes, leaf sizes <= 64) paired with an edit-script derivative" });
-                v.push(Space { name: "indep", size: 10_000, exhaustive: false, chunk: 2000, case_timeout_s: 5.0, what: "independent random layout pairs over a small leaf alphabet" });
-                v.push(Space { name: "distinct", size: 20_000, exhaustive: false, chunk: 2000, case_timeout_s: 5.0, what: "layouts with pairwise distinct leaf shapes, new = old after removals/additions of subtrees (survivors unambiguous)" });
+                v.push(Space { name: "edit", size: 120_000, exhaustive: false, chunk: 2000, case_timeout_s: 5.0, what: "random layouts (<= 40 nodes, leaf sizes <= 64) paired with an edit-script derivative" });
+                v.push(Space { name: "indep", size: 40_000, exhaustive: false, chunk: 2000, case_timeout_s: 5.0, what: "independent random layout pairs over a small leaf alphabet" });
+                v.push(Space { name: "distinct", size: 80_000, exhaustive: false, chunk: 2000, case_timeout_s: 5.0, what: "layouts with pairwise distinct leaf shapes, new = old after removals/additions of subtrees (survivors unambiguous)" });
             }
             Tier::Thorough => {
                 let n5 = small(5).len() as u64;
